@@ -42,6 +42,33 @@ theorem elastic_kinematic_components : kinematicOK kinematic_Elastic = true := b
 /-- WeakForms: idem (this was false before the `fix:` commit: "vx…az" returned components of u). -/
 theorem weakforms_kinematic_components : kinematicOK kinematic_WeakForms = true := by decide +kernel
 
+/-- PhaseField: `ux`, `uy`, `uz` select the columns 0, 1, 2 of the displacement (this was false before the `fix:` commit
+6734ba0: `uz` selected column 1). -/
+theorem phasefield_displacement_components :
+    index_PhaseField.map (·.1) = ["ux", "uy", "uz"] ∧ index_PhaseField.all (fun e => axisOf e.1 == some e.2) = true := by
+  decide +kernel
+
+/-- the vector results of a beam simulation, per dimension, in storage order: nodal unknowns, nodal forces,
+generalised strains (`_Calc_Epsilon_e_pg`), internal forces (`D · ε`, Timoshenko layout), stresses (`_Calc_Sigma_e_pg`) -/
+def beamVectors (dim : Nat) : List (List String) :=
+  match dim with
+  | 1 => [["ux"], ["fx"], ["ux'"], ["N"], ["Sxx"]]
+  | 2 => [["ux", "uy", "rz"], ["fx", "fy", "cz"], ["ux'", "rz'"], ["N", "Mz", "Ty"], ["Sxx", "Syy", "Sxy"]]
+  | 3 => [["ux", "uy", "uz", "rx", "ry", "rz"], ["fx", "fy", "fz", "cx", "cy", "cz"], ["ux'", "rx'", "ry'", "rz'"],
+          ["N", "Mx", "My", "Mz", "Ty", "Tz"], ["Sxx", "Syy", "Szz", "Syz", "Sxz", "Sxy"]]
+  | _ => []
+
+/-- position of a component name in the vector result it belongs to -/
+def beamColumn (dim : Nat) (name : String) : Option Nat :=
+  ((beamVectors dim).find? (·.contains name)).map (·.idxOf name)
+
+/-- Beam: every component name the simulation advertises, in 1D / 2D / 3D, is read from its own column of the vector
+result it belongs to, and none raises (this was false before the `fix:` commit d4673c5: the strain names used the
+index of the degree of freedom and the stress names had no entry). -/
+theorem beam_components :
+    index_Beam.all (fun e => e.2.2.isSome && e.2.2 == beamColumn e.1 e.2.1) = true ∧ index_Beam.length = 46 := by
+  decide +kernel
+
 /-- Kelvin–Mandel storage index of a two-letter component suffix -/
 def kelvinIndex (dim : Nat) (s : List Char) : Option Nat :=
   if dim = 2 then
